@@ -171,8 +171,11 @@ def expected_binding(sig, state):
         return {'inconsistent_reports': [p[0], shown, v]}
     slots.append([p[0], v])
   kwnames = {p[0] for p in sig if p[1] in ('pk', 'ko')}
+  # **kwargs entries: in the order in which they were configured (the stored arguments), since a
+  # callable may depend on keyword order (PEP 468)
+  stored = state.get('args_real') or state['oa']
   return {'slots': slots, 'var': view[P:],
-          'kw': [[k, v] for k, v in state['oa'] if isinstance(k, str) and k not in kwnames]}
+          'kw': [[k, v] for k, v in stored if isinstance(k, str) and k not in kwnames]}
 
 
 def oracle(case, real):
